@@ -28,10 +28,10 @@ structure Ops (α : Type) where
   /-- column map of wrapped transformer `id` on flat column `j` -/
   sk : Nat → Nat → α → α
   skInv : Nat → Nat → α → α
-  /-- RBF feature `c` of stage `id` evaluated on the flat row `x ++ u` -/
-  rbf : Nat → Nat → List α → α
-  /-- kernel-approximation feature `c` of stage `id` evaluated on the flat row -/
-  kern : Nat → Nat → List α → α
+  /-- RBF feature `c` of stage `id` evaluated on the row `[x; u]` -/
+  rbf : Nat → Nat → List α → List α → α
+  /-- kernel-approximation feature `c` of stage `id` evaluated on the row `[x; u]` -/
+  kern : Nat → Nat → List α → List α → α
 
 inductive Kind where
   | poly (order : Nat) (interactionOnly : Bool)
@@ -138,14 +138,14 @@ def rowFn (ops : Ops α) (angleOk : α → Prop := fun _ => True) : Kind → Row
       wu := fun nx nu => (kindW .const (nx, nu)).2 }
   | .rbf id n =>
     { f := fun r =>
-        let feats := (List.range n).map fun c => ops.rbf id c (r.x ++ r.u)
+        let feats := (List.range n).map fun c => ops.rbf id c r.x r.u
         if r.u.length = 0 then ⟨r.x ++ feats, r.u⟩ else ⟨r.x, r.u ++ feats⟩
       g := takeInv
       wx := fun nx nu => (kindW (.rbf id n) (nx, nu)).1
       wu := fun nx nu => (kindW (.rbf id n) (nx, nu)).2 }
   | .kernel id n =>
     { f := fun r =>
-        let feats := (List.range n).map fun c => ops.kern id c (r.x ++ r.u)
+        let feats := (List.range n).map fun c => ops.kern id c r.x r.u
         if r.u.length = 0 then ⟨r.x ++ feats, r.u⟩ else ⟨r.x, r.u ++ feats⟩
       g := takeInv
       wx := fun nx nu => (kindW (.kernel id n) (nx, nu)).1
